@@ -222,11 +222,31 @@ func parsePart(b *binder, text string) (string, error) {
 func partTexts(spec string) []string {
 	parts := strings.Split(spec, "/")
 	strip := func(p string) string { return strings.TrimSuffix(strings.TrimPrefix(p, "^"), "$") }
-	out := []string{".*", parts[0], strip(parts[0])}
+	stripAnchor := func(p string) string {
+		p = strings.TrimPrefix(p, "^")
+		if endsWithEscapedDollar(p) {
+			return p
+		}
+		return strings.TrimSuffix(p, "$")
+	}
+	out := []string{".*", parts[0], strip(parts[0]), stripAnchor(parts[0])}
 	if len(parts) > 1 {
-		out = append(out, strings.TrimPrefix(parts[1], "^"), strip(parts[1]))
+		out = append(out, strings.TrimPrefix(parts[1], "^"), strip(parts[1]), stripAnchor(parts[1]))
 	}
 	return out
+}
+
+// endsWithEscapedDollar: the text ends with a `$` preceded by an odd number of backslashes, i.e. a
+// literal dollar sign (the harness's own scanner).
+func endsWithEscapedDollar(p string) bool {
+	if !strings.HasSuffix(p, "$") {
+		return false
+	}
+	n := 0
+	for i := len(p) - 2; i >= 0 && p[i] == '\\'; i-- {
+		n++
+	}
+	return n%2 == 1
 }
 
 // parseTable prints the oracle for a list of specifiers.
